@@ -32,6 +32,8 @@ pub struct Cfg {
     pub blob: Option<(u32, u64)>, // (separation threshold, blob file target size)
     pub nkeys: usize,
     pub key_seed: u64,
+    /// one byte appended to every written value (0 = none): trees of a shared-cache group write values of equal length but different bytes
+    pub salt: u8,
 }
 
 #[derive(Clone, Copy, Debug, PartialEq)]
@@ -162,11 +164,11 @@ impl Case {
     pub fn show(&self) -> String {
         let c = &self.cfg;
         let mut s = format!(
-            "cfg block_size={} restart={} hash_ratio={} part_index={} part_filter={} pin={} bloom={} cache_kb={} fd_cap={} filter_seed={} blob={} nkeys={} key_seed={}\n",
+            "cfg block_size={} restart={} hash_ratio={} part_index={} part_filter={} pin={} bloom={} cache_kb={} fd_cap={} filter_seed={} blob={} nkeys={} key_seed={} salt={}\n",
             c.block_size, c.restart, c.hash_ratio, u8::from(c.part_index), u8::from(c.part_filter), u8::from(c.pin), c.bloom, c.cache_kb, c.fd_cap,
             c.filter_seed.map_or("-".into(), |x| x.to_string()),
             c.blob.map_or("-".into(), |(t, f)| format!("{t}:{f}")),
-            c.nkeys, c.key_seed
+            c.nkeys, c.key_seed, c.salt
         );
         for o in &self.ops {
             s.push_str(&o.show());
@@ -197,6 +199,7 @@ impl Case {
             blob: { let b = g("blob"); if b == "-" { None } else { let mut i = b.split(':'); Some((i.next()?.parse().ok()?, i.next()?.parse().ok()?)) } },
             nkeys: g("nkeys").parse().ok()?,
             key_seed: g("key_seed").parse().ok()?,
+            salt: g("salt").parse().unwrap_or(0),
         };
         let ops = lines.map(Op::parse).collect::<Option<Vec<_>>>()?;
         Some(Case { cfg, ops })
@@ -265,6 +268,7 @@ pub fn gen_case(rng: &mut Rng, profile: Profile, blob: bool, max_ops: u64) -> Ca
         blob: if blob { if profile == Profile::Reloc { Some((*rng.pick(&[0u32, 8]), *rng.pick(&[40u64, 100, 200]))) } else { Some((*rng.pick(&[0u32, 1, 8, 12, 1000]), *rng.pick(&[1u64, 64, 1024]))) } } else { None },
         nkeys,
         key_seed: rng.next() % 1_000_000,
+        salt: 0,
     };
     let n = 10 + rng.below(max_ops.max(11) - 10);
     let mut ops = vec![];
@@ -288,7 +292,7 @@ pub fn gen_case(rng: &mut Rng, profile: Profile, blob: bool, max_ops: u64) -> Ca
             Profile::Fifo => match r {
                 0..=599 => Op::Insert(k, *rng.pick(&[0usize, 6, 40])),
                 600..=799 => Op::Flush(Wm::Zero),
-                800..=949 => Op::Fifo(rng.below(4) as u8, rng.below(2) as u8),
+                800..=949 => Op::Fifo(rng.below(4) as u8, rng.below(3) as u8),
                 _ => Op::Reopen,
             },
             _ => {
@@ -419,6 +423,11 @@ impl CompactionFilter for Fil {
         let v = item.value()?.to_vec();
         let code = tree_verdict_code(self.seed, self.once.contains(&k), &k, &v);
         let verdict = match code {
+            3 => {
+                let mut r = v.clone();
+                r.extend(std::iter::repeat(0x52).take(12));
+                Verdict::ReplaceValue(r.into())
+            }
             4 => {
                 let mut r = v.clone();
                 r.push(0x52);
@@ -665,7 +674,19 @@ fn wm_value(w: Wm, c: &Ctx) -> SeqNo {
     }
 }
 
+thread_local! { static SALT: std::cell::Cell<u8> = const { std::cell::Cell::new(0) }; }
+
 fn val_for(k: &K, s: SeqNo, pad: usize) -> Vec<u8> {
+    let salt = SALT.with(std::cell::Cell::get);
+    if salt != 0 && pad != 9999 {
+        let mut v = val_for_plain(k, s, pad);
+        v.push(salt);
+        return v;
+    }
+    val_for_plain(k, s, pad)
+}
+
+fn val_for_plain(k: &K, s: SeqNo, pad: usize) -> Vec<u8> {
     if pad == 9999 {
         return vec![]; // the empty value (directed cases only: it cannot identify its version)
     }
@@ -972,6 +993,7 @@ pub fn run_case(case: &Case, runner: &mut Runner) -> Outcome {
 
 fn run_case_inner(case: &Case, runner: &mut Runner) -> Outcome {
     let cfg = case.cfg.clone();
+    SALT.with(|s| s.set(cfg.salt));
     let mut krng = Rng::new(cfg.key_seed);
     let keys = gen_keyset(&mut krng, cfg.nkeys);
     let dir = tempfile::tempdir_in(crate::scratch_root()).unwrap();
@@ -1278,6 +1300,11 @@ fn run_case_inner(case: &Case, runner: &mut Runner) -> Outcome {
                     bump(&mut out, "filter.shown_newest");
                     match code {
                         5 | 6 | 7 => c.oracle.evs.push(Ev::Del(cs, k.clone())),
+                        3 => {
+                            let mut r = v.clone();
+                            r.extend(std::iter::repeat(0x52).take(12));
+                            c.oracle.evs.push(Ev::Put(cs, k.clone(), r));
+                        }
                         4 => {
                             let mut r = v.clone();
                             r.push(0x52);
@@ -1563,7 +1590,7 @@ fn exec_fifo(c: &mut Ctx, op: &Op, runner: &mut Runner, tag: &str, out: &mut Out
         2 => db_size,
         _ => db_size * 2 + 1,
     };
-    let ttl: Option<u64> = if *tsel == 0 { None } else { Some(1_000_000_000) };
+    let ttl: Option<u64> = match *tsel { 0 => None, 1 => Some(1_000_000_000), _ => Some(0) };
     let (_, before) = levels_of(c);
     c.tree.compact(Arc::new(lsm_tree::compaction::Fifo::new(limit, ttl)), 0).unwrap();
     let (_, after) = levels_of(c);
@@ -1771,6 +1798,7 @@ pub fn shared_cache_campaign(seed: u64, cases: u64, max_ops: u64, k: usize, st: 
         let base = gen_case(&mut rng, Profile::Core, false, max_ops);
         let cache = Arc::new(lsm_tree::Cache::with_capacity_bytes(*rng.pick(&[0u64, 1024, 64 * 1024, 8 * 1024 * 1024])));
         let fds = match rng.below(3) { 0 => None, 1 => Some(Arc::new(lsm_tree::DescriptorTable::new(1))), _ => Some(Arc::new(lsm_tree::DescriptorTable::new(3))) };
+        let all_blob = rng.chance(1, 2);
         let mut variants = vec![];
         for i in 0..k {
             let mut c = base.clone();
@@ -1781,7 +1809,8 @@ pub fn shared_cache_campaign(seed: u64, cases: u64, max_ops: u64, k: usize, st: 
             c.cfg.part_filter = rng.chance(1, 2);
             c.cfg.pin = rng.chance(1, 2);
             c.cfg.bloom = rng.below(3) as u8;
-            c.cfg.blob = if i % 2 == 1 && rng.chance(1, 2) { Some((8, 64)) } else { None };
+            c.cfg.blob = if all_blob { Some((8, 64)) } else if i % 2 == 1 && rng.chance(1, 2) { Some((8, 64)) } else { None };
+            c.cfg.salt = b'a' + i as u8;
             variants.push(c);
         }
         let outcomes: Vec<(Case, Outcome)> = std::thread::scope(|sc| {
